@@ -270,15 +270,15 @@ def folderEff (n : Node) : Op → Folder → Folder
   | .tick => folderTickEff n
   | .folder F r => fun G => if n.power = .on then (if G.name = F ∧ G.deleted = false then (G.handle r).1 else G) else G
   | .folderDelete F f | .fsDeleteFile F f =>
-    fun G => if n.power = .on then (if G.name = F ∧ G.deleted = false then G.mapLiveFile f File.delete else G) else G
+    fun G => if n.power = .on then (if G.name = F ∧ G.deleted = false then G.delLive f else G) else G
   | .file F f r =>
     fun G => if n.power = .on then
       (if G.name = F ∧ G.deleted = false then G.mapLiveFile f (fun x => (x.handle r).1) else G) else G
   | .fsDeleteFolder F =>
-    fun G => if n.power = .on ∧ F ≠ "root" then (if G.name = F ∧ G.deleted = false then G.delete else G) else G
+    fun G => if n.power = .on ∧ F ≠ "root" then (if G.name = F ∧ G.deleted = false then G.deleteAt (n.fdelCtr + 1) else G) else G
   | .fsRestoreFile F f =>
     fun G => if n.power = .on then (if G.name = F ∧ G.deleted = false then G.mapFile f (File.restoreIn G.files) else G) else G
-  | .fsRestoreFolder F => fun G => if n.power = .on then (if G.name = F then G.restore else G) else G
+  | .fsRestoreFolder F => fun G => if n.power = .on then (if G.name = F then Folder.restoreIn n.folders G else G) else G
   | .fileSet F f h => fun G => if G.name = F then G.mapFile f (fun x => { x with actual := h }) else G
   | _ => fun G => G
 
@@ -316,10 +316,14 @@ theorem File.scan_visible : f.scan.visible = if f.deleted then f.visible else f.
   split
   · rfl
   · rename_i h; split <;> simpa using h
-@[simp] theorem File.delete_name : f.delete.name = f.name := rfl
-@[simp] theorem File.delete_visible : f.delete.visible = f.visible := rfl
-@[simp] theorem File.delete_actual : f.delete.actual = f.actual := rfl
-@[simp] theorem File.delete_deleted : f.delete.deleted = true := rfl
+@[simp] theorem File.deleteAt_name (s : Nat) : (f.deleteAt s).name = f.name := by unfold File.deleteAt; split <;> rfl
+@[simp] theorem File.deleteAt_visible (s : Nat) : (f.deleteAt s).visible = f.visible := by unfold File.deleteAt; split <;> rfl
+@[simp] theorem File.deleteAt_actual (s : Nat) : (f.deleteAt s).actual = f.actual := by unfold File.deleteAt; split <;> rfl
+@[simp] theorem File.deleteAt_deleted (s : Nat) : (f.deleteAt s).deleted = true := by
+  unfold File.deleteAt; split
+  · assumption
+  · rfl
+@[simp] theorem File.scan_delSeq : f.scan.delSeq = f.delSeq := by unfold File.scan; split <;> rfl
 theorem File.handle_name (r) : (f.handle r).1.name = f.name := by cases r <;> simp [File.handle]
 theorem File.handle_visible (r) (hr : r ≠ .scan) : (f.handle r).1.visible = f.visible := by
   cases r <;> first | exact absurd rfl hr | simp [File.handle]
@@ -411,7 +415,7 @@ theorem Folder.restoreFinish_actual :
   · simp
 
 theorem Folder.restoreTick_files :
-    G.restoreTick.files = if G.restoreCd = 1 then G.files.map (File.restoreIn G.files) else G.files := by
+    G.restoreTick.files = if G.restoreCd = 1 then G.files.map (File.restoreAll G.files) else G.files := by
   unfold Folder.restoreTick
   split
   · split
@@ -435,7 +439,7 @@ theorem Folder.restoreTick_rest :
   unfold Folder.restoreTick
   split
   · split
-    · have h := Folder.restoreFinish_rest { G with restoreCd := 0, files := G.files.map (File.restoreIn G.files) }
+    · have h := Folder.restoreFinish_rest { G with restoreCd := 0, files := G.files.map (File.restoreAll G.files) }
       exact ⟨h.1, h.2.1, h.2.2.1, h.2.2.2.1, h.2.2.2.2.1⟩
     · exact ⟨rfl, rfl, rfl, rfl, rfl⟩
   · exact ⟨rfl, rfl, rfl, rfl, rfl⟩
@@ -471,6 +475,10 @@ theorem anyLiveCorrupt_map_scan (fs : List File) : anyLiveCorrupt (fs.map File.s
 end folder
 
 
+theorem Folder.restoreIn_cases (fo : List Folder) (G : Folder) :
+    Folder.restoreIn fo G = G ∨ Folder.restoreIn fo G = G.restore := by
+  unfold Folder.restoreIn; (repeat' split) <;> first | exact Or.inl rfl | exact Or.inr rfl
+
 /-! ### item-wise effect on files -/
 
 /-- effect of any operation on one file `f` of folder `G` -/
@@ -478,7 +486,7 @@ def fileEff (n : Node) (op : Op) (G : Folder) : File → File :=
   match op with
   | .tick => fun f =>
     if n.powerPhase.power = .on ∧ G.deleted = false then
-      (fun f2 : File => if G.restoreCd = 1 then File.restoreIn G.files f2 else f2)
+      (fun f2 : File => if G.restoreCd = 1 then File.restoreAll G.files f2 else f2)
         ((fun f1 : File => if G.scanCd = 1 then f1.scan else f1) (if n.powerPhase.scanCd = 1 then f.scan else f))
     else f
   | .folder F r => fun f =>
@@ -489,10 +497,10 @@ def fileEff (n : Node) (op : Op) (G : Folder) : File → File :=
        | _ => f)
     else f
   | .folderDelete F nm | .fsDeleteFile F nm => fun f =>
-    if n.power = .on ∧ G.name = F ∧ G.deleted = false ∧ f.name = nm ∧ f.deleted = false then f.delete else f
+    if n.power = .on ∧ G.name = F ∧ G.deleted = false ∧ f.name = nm ∧ f.deleted = false then f.deleteAt (G.delCtr + 1) else f
   | .file F nm r => fun f =>
     if n.power = .on ∧ G.name = F ∧ G.deleted = false ∧ f.name = nm ∧ f.deleted = false then (f.handle r).1 else f
-  | .fsDeleteFolder F => fun f => if n.power = .on ∧ F ≠ "root" ∧ G.name = F ∧ G.deleted = false then f.delete else f
+  | .fsDeleteFolder F => fun f => if n.power = .on ∧ F ≠ "root" ∧ G.name = F ∧ G.deleted = false then f.deleteAt (G.delCtr + 1) else f
   | .fsRestoreFile F nm => fun f =>
     if n.power = .on ∧ G.name = F ∧ G.deleted = false ∧ f.name = nm then File.restoreIn G.files f else f
   | .fileSet F nm h => fun f => if G.name = F ∧ f.name = nm then { f with actual := h } else f
@@ -506,25 +514,53 @@ theorem hasLive_map (name : String) (fs : List File) (g : File → File)
   funext x
   simp only [Function.comp, (hg x).1, (hg x).2]
 
+theorem firstDeleted_map (fs : List File) (g : File → File) (x : File)
+    (hg : ∀ y, (g y).name = y.name ∧ (g y).deleted = y.deleted ∧ (g y).delSeq = y.delSeq) :
+    firstDeleted (fs.map g) x = firstDeleted fs x := by
+  unfold firstDeleted
+  rw [List.all_map]
+  congr 1
+  funext y
+  simp only [Function.comp, (hg y).1, (hg y).2.1, (hg y).2.2]
+
+theorem deadTwin_map (fs : List File) (g : File → File) (x : File)
+    (hg : ∀ y, (g y).name = y.name ∧ (g y).deleted = y.deleted) : deadTwin (fs.map g) x = deadTwin fs x := by
+  unfold deadTwin
+  rw [List.filter_map, List.length_map]
+  have : ((fun y : File => decide (y.name = x.name) && y.deleted) ∘ g) = (fun y : File => decide (y.name = x.name) && y.deleted) := by
+    funext y
+    simp only [Function.comp, (hg y).1, (hg y).2]
+  rw [this]
+
 @[simp] theorem File.restoreIn_name (fs : List File) (x : File) : (File.restoreIn fs x).name = x.name := by
-  unfold File.restoreIn; split <;> simp
+  unfold File.restoreIn; (repeat' split) <;> simp
 @[simp] theorem File.restoreIn_visible (fs : List File) (x : File) : (File.restoreIn fs x).visible = x.visible := by
-  unfold File.restoreIn; split <;> simp
+  unfold File.restoreIn; (repeat' split) <;> simp
+@[simp] theorem File.restoreAll_name (fs : List File) (x : File) : (File.restoreAll fs x).name = x.name := by
+  unfold File.restoreAll; (repeat' split) <;> simp
+@[simp] theorem File.restoreAll_visible (fs : List File) (x : File) : (File.restoreAll fs x).visible = x.visible := by
+  unfold File.restoreAll; (repeat' split) <;> simp
 theorem File.restoreIn_live (fs : List File) (x : File) (h : x.deleted = false) : File.restoreIn fs x = x.restore := by
   unfold File.restoreIn; simp [h]
-theorem File.restoreIn_congr (fs fs' : List File) (x : File) (h : ∀ nm, hasLive nm fs' = hasLive nm fs) :
-    File.restoreIn fs' x = File.restoreIn fs x := by
-  unfold File.restoreIn; rw [h]
+theorem File.restoreAll_live (fs : List File) (x : File) (h : x.deleted = false) : File.restoreAll fs x = x.restore := by
+  unfold File.restoreAll; simp [h]
+/-- scanning the files (the node scan / the folder's own scan earlier in the same timestep) does not change which file a restore by
+name reaches -/
+theorem File.restoreAll_scan (fs : List File) (x : File) : File.restoreAll (fs.map File.scan) x = File.restoreAll fs x := by
+  unfold File.restoreAll
+  rw [hasLive_map x.name fs File.scan (fun y => ⟨y.scan_name, y.scan_deleted⟩),
+    firstDeleted_map fs File.scan x (fun y => ⟨y.scan_name, y.scan_deleted, y.scan_delSeq⟩),
+    deadTwin_map fs File.scan x (fun y => ⟨y.scan_name, y.scan_deleted⟩)]
 
 theorem Folder.tick_files (G : Folder) :
-    G.tick.files = G.files.map (fun f => (fun f2 : File => if G.restoreCd = 1 then File.restoreIn G.files f2 else f2)
+    G.tick.files = G.files.map (fun f => (fun f2 : File => if G.restoreCd = 1 then File.restoreAll G.files f2 else f2)
       (if G.scanCd = 1 then f.scan else f)) := by
   unfold Folder.tick
   rw [Folder.restoreTick_files, (Folder.scanTick_rest G).2.2.1, Folder.scanTick_files]
   by_cases h1 : G.restoreCd = 1 <;> by_cases h2 : G.scanCd = 1 <;> simp only [h1, h2, if_true, if_false, List.map_map]
   · apply List.map_congr_left
     intro f _
-    exact File.restoreIn_congr _ _ _ (fun nm => hasLive_map nm G.files File.scan (fun x => ⟨x.scan_name, x.scan_deleted⟩))
+    exact File.restoreAll_scan _ _
   · simp
 
 theorem folderEff_files (n : Node) (op : Op) (G : Folder) :
@@ -544,8 +580,7 @@ theorem folderEff_files (n : Node) (op : Op) (G : Folder) :
           rw [Folder.tick_files, Folder.instantScan_files]
           simp [hd']
           intro a _
-          rw [File.restoreIn_congr G.files (List.map File.scan G.files) _
-            (fun nm => hasLive_map nm G.files File.scan (fun x => ⟨x.scan_name, x.scan_deleted⟩))]
+          rw [File.restoreAll_scan]
         · simp only [hon, hs, if_true, if_false, hd', Bool.false_eq_true, true_and]
           rw [Folder.tick_files]
     · simp [hon]
@@ -561,22 +596,23 @@ theorem folderEff_files (n : Node) (op : Op) (G : Folder) :
     · simp [h]
   case folderDelete F nm =>
     by_cases h : n.power = .on <;> by_cases hn : G.name = F <;> by_cases hd : G.deleted = false <;>
-      simp [h, hn, hd, Folder.mapLiveFile]
+      simp [h, hn, hd, Folder.mapLiveFile, Folder.delLive]
   case fsDeleteFile F nm =>
     by_cases h : n.power = .on <;> by_cases hn : G.name = F <;> by_cases hd : G.deleted = false <;>
-      simp [h, hn, hd, Folder.mapLiveFile]
+      simp [h, hn, hd, Folder.mapLiveFile, Folder.delLive]
   case file F nm r =>
     by_cases h : n.power = .on <;> by_cases hn : G.name = F <;> by_cases hd : G.deleted = false <;>
       simp [h, hn, hd, Folder.mapLiveFile]
   case fsDeleteFolder F =>
     by_cases h : n.power = .on <;> by_cases hn : G.name = F <;> by_cases hd : G.deleted = false <;>
-      by_cases hr : F = "root" <;> simp [h, hn, hd, hr, Folder.delete]
+      by_cases hr : F = "root" <;> simp [h, hn, hd, hr, Folder.delete, Folder.deleteAt]
   case fsRestoreFile F nm =>
     by_cases h : n.power = .on <;> by_cases hn : G.name = F <;> by_cases hd : G.deleted = false <;>
       simp [h, hn, hd, Folder.mapFile, mapNamed]
   case fsRestoreFolder F =>
-    by_cases h : n.power = .on <;> by_cases hn : G.name = F <;> simp [h, hn, Folder.restore]
-    split <;> rfl
+    by_cases h : n.power = .on <;> by_cases hn : G.name = F <;> simp [h, hn]
+    rcases Folder.restoreIn_cases n.folders G with e | e <;> rw [e]
+    unfold Folder.restore; split <;> rfl
   case fileSet F nm hh =>
     by_cases hn : G.name = F <;> simp [hn, Folder.mapFile, mapNamed]
   all_goals simp
